@@ -507,5 +507,10 @@ int main (int argc, char** argv)
     c15::run_planes ();
     c15::run_sphere ();
     c15::run_triangle ();
+    c15::run_scale ();
+    c15::run_graded ();
+    c15::run_farsphere ();
+    c15::run_affine ();
+    c15::run_cvertex ();
     return vf::R ().finish ();
 }
